@@ -387,6 +387,35 @@ def obligations_for(config):
     ob("H", "secp256k1_generator_h_internal", "the value generator H is on the curve and its x coordinate is SHA256(uncompressed G) (nothing-up-my-sleeve derivation)",
        on_curve(hx, hy) and hx == int.from_bytes(hashlib.sha256(gser).digest(), "big"), "x=%s" % hexs(hx), {"C08", "C09", "C10"})
 
+    # limb comparisons of the scalar range tests: word k is compared with word k of the constant it is tested against
+    # (is_high: n/2, check_overflow: n) — `a->d[2] < SECP256K1_N_H_1` compiles, passes the vectors and is wrong for 2^-64 of all s
+    prog_ = sxlib.program(config)
+    for fname, ref, what in (("secp256k1_scalar_is_high", N >> 1, "n/2"), ("secp256k1_scalar_check_overflow", N, "n")):
+        f_ = prog_.functions.get(fname)
+        if f_ is None or not f_.blocks:
+            raise AnalysisBroken("R-CONST: %s vanished" % fname)
+        bad_, n_cmp = [], 0
+        for el in f_.elems():
+            if not el.top:
+                continue
+            for x in sxlib.walk(el.e):
+                if sxlib.kind(x) == "bin" and x[1] in ("<", ">", "<=", ">=", "==", "!="):
+                    for a_, b_ in ((x[2], x[3]), (x[3], x[2])):
+                        a0 = sxlib.strip(a_)
+                        if sxlib.kind(a0) == "var":
+                            # a local that was loaded from one word (`const uint64_t a2 = a->d[2];`) stands for it
+                            ds_ = [r_ for e2 in f_.elems() for (n_, o_, r_, v_) in sxlib.defs_in_elem(e2.e) if n_ == a0[1]]
+                            if len(ds_) == 1 and ds_[0] is not None:
+                                a0 = sxlib.strip(ds_[0])
+                        if sxlib.kind(a0) == "index" and sxlib.is_int(a0[2]) and sxlib.is_int(b_) and "->d" in sxlib.show(a0[1]).replace(" ", ""):
+                            k_ = sxlib.int_val(a0[2])
+                            n_cmp += 1
+                            if sxlib.int_val(b_) & ((1 << bits) - 1) != (ref >> (bits * k_)) & ((1 << bits) - 1):
+                                bad_.append("d[%d] is compared with 0x%x, word %d of %s is 0x%x" % (k_, sxlib.int_val(b_), k_, what, (ref >> (bits * k_)) & ((1 << bits) - 1)))
+        ob("limbcmp:%s" % fname, fname, "%s compares word k of the scalar with word k of %s" % (fname, what), not bad_,
+           ("%d limb comparisons, each against its own word" % n_cmp) if (not bad_ and n_cmp) else
+           ("NOT DECIDED: no comparison of a word with a literal found" if not bad_ else "; ".join(bad_[:3])), arith | {"C03"})
+
     # the static context's positional initialiser against the field order of the context struct
     raw = c.raw("secp256k1_context_static_")
     pi, pe = raw.find("@secp256k1_default_illegal_callback_fn"), raw.find("@secp256k1_default_error_callback_fn")
